@@ -27,7 +27,7 @@ RULE = ('cases: seeded grid searches over grids of 1-12 combinations (1-3 parame
         'table).')
 ASSUMPTIONS = ['grids carry no repeated values (the table key must identify the combination; duplicates are C14\'s subject)',
                'workers are forked (Linux default), so the score table set before the call is visible to them']
-FLOORS = {'quick': {'all_tied_tables_beyond_maxsize': 2, 'tables_on_which_every_combination_ties': 12, 'searches_whose_score_function_runs_a_failing_search': 48, 'searches_after_a_build_that_failed_in_a_collection': 26, 'grids_with_non_list_collections': 67, 'searches': 300, 'parallel_searches': 150, 'results_checked': 1500, 'mode_0': 15, 'mode_1': 15, 'mode_2': 15, 'mode_3': 15,
+FLOORS = {'quick': {'all_tied_tables_beyond_maxsize': 1, 'tables_on_which_every_combination_ties': 12, 'searches_whose_score_function_runs_a_failing_search': 48, 'searches_after_a_build_that_failed_in_a_collection': 26, 'grids_with_non_list_collections': 67, 'searches': 300, 'parallel_searches': 150, 'results_checked': 1500, 'mode_0': 15, 'mode_1': 15, 'mode_2': 15, 'mode_3': 15,
                     'mode_4': 15, 'mode_5': 15, 'mode_6': 15, 'mode_7': 15, 'tied_optimum': 40, 'optimum_last': 30, 'optimum_first': 30,
                     'optimum_middle': 20, 'beyond_maxsize_tables': 40, 'seeded_grids': 38, 'big_equal_valued_neighbours': 2, 'big_long_variance': 2, 'big_grids': 2, 'parameter_list_reused': 79, 'style_bigint': 14, 'style_nearmax': 8, 'limit_below_completion': 30,
                     'reach:Batching.grid_search': 300},
